@@ -347,6 +347,12 @@ func (e *Env) ident(name string) (Value, error) {
 			return intV("(+ " + cur + " 1)"), nil
 		}
 		return intV(cur), nil
+	case "ranged":
+		// the slice a range-over-slice loop iterates over (its range expression is evaluated once)
+		if e.loop == nil || e.loop.rangeX == nil {
+			return nil, fmt.Errorf("ranged used outside a range-over-slice loop clause")
+		}
+		return e.x.val(e.fr, e.st, e.loop.rangeX), nil
 	case "visited":
 		if e.loop != nil && e.loop.iter != nil {
 			if g, ok := e.fr.iters[e.loop.iter]; ok {
@@ -883,6 +889,20 @@ func (e *Env) call(ex ECall) (Value, error) {
 			v, err := e.evalOld(ex.Args[0])
 			e.st, e.pos = save, savePos
 			return v, err
+		case "nilof":
+			// nilof(*T): the nil pointer of that type (initial value of a ghost that holds an object)
+			if len(ex.Args) != 1 {
+				return nil, fmt.Errorf("nilof takes a pointer type")
+			}
+			t, err := e.typeExpr(ex.Args[0])
+			if err != nil {
+				return nil, err
+			}
+			pt, ok := t.Underlying().(*types.Pointer)
+			if !ok {
+				return nil, fmt.Errorf("nilof takes a pointer type")
+			}
+			return PtrV{Ref: NilRef, Elem: pt.Elem()}, nil
 		case "pre":
 			if e.pre == nil {
 				return nil, fmt.Errorf("pre() not available here")
